@@ -399,7 +399,7 @@ Section Stmt.
     | 0 => OutOfFuel
     | S n' =>
         if is_setop (cur ts) then
-          let op := lit (cur ts) in
+          let op := upper (lit (cur ts)) in
           let ts := advance ts in
           let all := isT (cur ts) TyAll in
           let ts := if all then advance ts else ts in
